@@ -1969,7 +1969,9 @@ EbErrorType read_uncompressed_header(Bitstrm *bs, EbDecHandle *dec_handle_ptr, O
                 int gold_frame_idx = dec_get_bits(bs, 3);
                 PRINT_FRAME("last_frame_idx", last_frame_idx);
                 PRINT_FRAME("gold_frame_idx", gold_frame_idx);
-                svt_set_frame_refs(dec_handle_ptr, last_frame_idx, gold_frame_idx);
+                if (svt_set_frame_refs(dec_handle_ptr, last_frame_idx, gold_frame_idx) !=
+                    EB_ErrorNone)
+                    return EB_Corrupt_Frame;
             }
         }
 
